@@ -188,6 +188,12 @@ def classify(desc, x, y, mul=0.0, add=0.0):
 
 def _classify(desc, x, y, mul, add):
     k = desc["k"]
+    if k == "rect" and desc["theta"] == 0:
+        # unrotated: compare with the edges themselves (no centre, so edges of very different magnitude stay exact)
+        gx = (desc["xmax"] - desc["xmin"]) / 2.0 * mul + add
+        gy = (desc["ymax"] - desc["ymin"]) / 2.0 * mul + add
+        box = lambda ex, ey: ((x > desc["xmin"] - ex) & (x < desc["xmax"] + ex) & (y > desc["ymin"] - ey) & (y < desc["ymax"] + ey))
+        return box(0.0, 0.0), box(gx, gy) != box(-gx, -gy)
     if k == "rect":
         cx, cy = centre_of(desc)
         hw = (desc["xmax"] - desc["xmin"]) / 2.0
@@ -221,7 +227,7 @@ def _classify(desc, x, y, mul, add):
     if k == "range":
         c = x if desc["ori"] == "x" else y
         inside = (c > desc["lo"]) & (c < desc["hi"])
-        m = add + mul * abs(desc["hi"] - desc["lo"]) / 2.0
+        m = add + (mul * abs(desc["hi"] - desc["lo"]) / 2.0 if mul else 0.0)
         band = (np.abs(c - desc["lo"]) <= m) | (np.abs(c - desc["hi"]) <= m)
         return inside, band
     if k == "polygon":
